@@ -22,6 +22,12 @@ SPEC = {
              "(IPv4 dotted quad, RFC 4291 text forms, n groups of two hex digits): valid => accepted with the reference value, invalid => an exception; "
              "strings the documentation leaves open (leading-zero octets, hardware-address groups of < 2 digits / empty string / stray colons) are counted, "
              "not compared; the shared hardware-address parser is also swept through HWAddress<2>, where the length bound reaches past a complete address. "
+             "value of non-canonical texts: every accepted string of every family is compared with a reference PARSER (not only acceptor) and its value must survive "
+             "to_string() -> constructor; for hardware-address text with groups of 0 or 1 digits acceptance stays unjudged but an accepted text must have the value "
+             "'group k = byte k, empty = 0, missing groups = 0'; structured families: HWAddress<6> every sequence of <= 7 groups from {\"\",a,1,1e,F0,0b(,C,d7)}, "
+             "HWAddress<3> every sequence of <= 4 groups, each empty / one / two digits from {0,1,a,F} (21 tokens, full product), HWAddress<8> <= 9 groups from {\"\",a,1e,C(,07)}, "
+             "IPv4 every sequence of <= 4 octets from {7,42,199,255,03,007,042,0}, IPv6 every position and width (0..8 groups) of '::' x every assignment of "
+             "{b,0c,00d,f0E1(,1a2,000e)} to the written groups, with and without a dotted-quad tail. "
              "single foreign byte: for 5 v4 / 6 v6 / 4 hw / 3 hw2 valid seeds EVERY one of the 256 byte values substituted at and inserted before EVERY position "
              "(control characters, 0x7f..0xff and the neighbours of the digit/letter ranges included), thorough: every pair of positions x a 27-value set of such bytes, "
              "and all 65536 byte pairs in the first and last group of a hardware address; embedded NUL in IPv4/IPv6 text is counted, not compared. "
